@@ -256,6 +256,14 @@ func (vt *Model) update(seq ansi.Sequence) {
 	defer vt.mu.Unlock()
 	defer vt.parser.Finish(seq)
 	defer vt.invalidate()
+	defer func() {
+		// The cursor only sits past the right margin while a wrap is
+		// pending. Most functions cancel the pending wrap and leave the
+		// column alone: put it back on the margin
+		if !vt.lastCol && vt.cursor.col > vt.margin.right {
+			vt.cursor.col = vt.margin.right
+		}
+	}()
 	switch seq := seq.(type) {
 	case ansi.Print:
 		vt.print(seq)
